@@ -13,14 +13,14 @@ inductive POp where
   | addFirst (x : Nat) | addLast (x : Nat) | addAt (x i : Nat)
   | addAll | addAllAt (i : Nat) | splice | spliceAt (i : Nat)
   | remove (x : Nat) | removeAt (i : Nat) | removeFirst | removeLast | removeAll
-  | replaceAt (x i : Nat) | reverse | swapRoles
+  | replaceAt (x i : Nat) | reverse | filterMut | swapRoles
   deriving DecidableEq
 
 def POp.toOp : POp → Op
   | .addFirst x => .addFirst x | .addLast x => .addLast x | .addAt x i => .addAt x i
   | .addAll => .addAll | .addAllAt i => .addAllAt i | .splice => .splice | .spliceAt i => .spliceAt i
   | .remove x => .remove x | .removeAt i => .removeAt i | .removeFirst => .removeFirst | .removeLast => .removeLast
-  | .removeAll => .removeAll | .replaceAt x i => .replaceAt x i | .reverse => .reverse | .swapRoles => .swapRoles
+  | .removeAll => .removeAll | .replaceAt x i => .replaceAt x i | .reverse => .reverse | .filterMut => .filterMut | .swapRoles => .swapRoles
 
 /-- the shared heap and the two list headers -/
 structure PS where
@@ -29,7 +29,7 @@ structure PS where
   l2 : Hdr := {}
 
 /-- one history step on the pair (destination, source) at the level of raw links -/
-def pstep (p : PS) (op : POp) (m : Mem) : Out × PS × Mem :=
+def pstep (P : Params) (p : PS) (op : POp) (m : Mem) : Out × PS × Mem :=
   match op with
   | .addFirst x => let r := addFirst p.st p.l1 x m; ({ st := some r.1 }, { p with st := r.2.1, l1 := r.2.2.1 }, r.2.2.2)
   | .addLast x => let r := addLast p.st p.l1 x m; ({ st := some r.1 }, { p with st := r.2.1, l1 := r.2.2.1 }, r.2.2.2)
@@ -45,12 +45,13 @@ def pstep (p : PS) (op : POp) (m : Mem) : Out × PS × Mem :=
   | .removeAll => let r := removeAll p.st p.l1 m; ({ st := some r.1, vals := r.2.1 }, { p with st := r.2.2.1, l1 := r.2.2.2.1 }, r.2.2.2.2)
   | .replaceAt x i => let r := replaceAt p.st p.l1 x i m; ({ st := some r.1, val := r.2.1 }, { p with st := r.2.2.1, l1 := r.2.2.2.1 }, r.2.2.2.2)
   | .reverse => let r := reverse p.st p.l1; ({}, { p with st := r.1, l1 := r.2 }, m)
+  | .filterMut => let r := filterMut P.pred p.st p.l1 m; ({ st := some r.1 }, { p with st := r.2.1, l1 := r.2.2.1 }, r.2.2.2)
   | .swapRoles => ({}, { p with l1 := p.l2, l2 := p.l1 }, m)
 
-def prun (p : PS) (ops : List POp) (m : Mem) : List Out × PS × Mem :=
+def prun (P : Params) (p : PS) (ops : List POp) (m : Mem) : List Out × PS × Mem :=
   match ops with
   | [] => ([], p, m)
-  | op :: ops => let r := pstep p op m; let rs := prun r.2.1 ops r.2.2; (r.1 :: rs.1, rs.2.1, rs.2.2)
+  | op :: ops => let r := pstep P p op m; let rs := prun P r.2.1 ops r.2.2; (r.1 :: rs.1, rs.2.1, rs.2.2)
 
 /-- both lists are represented on the shared heap by disjoint sets of nodes, all older than the next serial -/
 structure Inv2 (p : PS) (c1 c2 : List Cell) : Prop where
@@ -100,9 +101,9 @@ theorem erase_mid (pre post : List Nat) (x : Nat) (h : x ∉ pre) : (pre ++ x ::
     simp [List.erase_cons, hb, ih hr]
 
 theorem pstep_addFirst (P : Params) (p : PS) (c1 c2 : List Cell) (x : Nat) (m : Mem) (I : Inv2 p c1 c2) :
-    ∃ c1' c2', Inv2 (pstep p (.addFirst x) m).2.1 c1' c2' ∧
+    ∃ c1' c2', Inv2 (pstep P p (.addFirst x) m).2.1 c1' c2' ∧
       DList.step P (absPair p c1 c2) (.addFirst x) m =
-        ((pstep p (.addFirst x) m).1, absPair (pstep p (.addFirst x) m).2.1 c1' c2', (pstep p (.addFirst x) m).2.2) := by
+        ((pstep P p (.addFirst x) m).1, absPair (pstep P p (.addFirst x) m).2.1 c1' c2', (pstep P p (.addFirst x) m).2.2) := by
   obtain ⟨sf, st⟩ := addFirst_spec p.st p.l1 c1 x m I.rep.r1 I.b1
   simp only [pstep, DList.step, absPair, DList.addFirst_ofList]
   by_cases ha : (m.allocT p.l1.triple).1 = true
@@ -119,9 +120,9 @@ theorem pstep_addFirst (P : Params) (p : PS) (c1 c2 : List Cell) (x : Nat) (m : 
 
 
 theorem pstep_addLast (P : Params) (p : PS) (c1 c2 : List Cell) (x : Nat) (m : Mem) (I : Inv2 p c1 c2) :
-    ∃ c1' c2', Inv2 (pstep p (.addLast x) m).2.1 c1' c2' ∧
+    ∃ c1' c2', Inv2 (pstep P p (.addLast x) m).2.1 c1' c2' ∧
       DList.step P (absPair p c1 c2) (.addLast x) m =
-        ((pstep p (.addLast x) m).1, absPair (pstep p (.addLast x) m).2.1 c1' c2', (pstep p (.addLast x) m).2.2) := by
+        ((pstep P p (.addLast x) m).1, absPair (pstep P p (.addLast x) m).2.1 c1' c2', (pstep P p (.addLast x) m).2.2) := by
   obtain ⟨sf, st⟩ := addLast_spec p.st p.l1 c1 x m I.rep.r1 I.b1
   simp only [pstep, DList.step, absPair, DList.addLast_ofList]
   by_cases ha : (m.allocT p.l1.triple).1 = true
@@ -137,9 +138,9 @@ theorem pstep_addLast (P : Params) (p : PS) (c1 c2 : List Cell) (x : Nat) (m : M
     exact ⟨c1, c2, I, by simp [ha']⟩
 
 theorem pstep_addAt (P : Params) (p : PS) (c1 c2 : List Cell) (x i : Nat) (m : Mem) (I : Inv2 p c1 c2) :
-    ∃ c1' c2', Inv2 (pstep p (.addAt x i) m).2.1 c1' c2' ∧
+    ∃ c1' c2', Inv2 (pstep P p (.addAt x i) m).2.1 c1' c2' ∧
       DList.step P (absPair p c1 c2) (.addAt x i) m =
-        ((pstep p (.addAt x i) m).1, absPair (pstep p (.addAt x i) m).2.1 c1' c2', (pstep p (.addAt x i) m).2.2) := by
+        ((pstep P p (.addAt x i) m).1, absPair (pstep P p (.addAt x i) m).2.1 c1' c2', (pstep P p (.addAt x i) m).2.2) := by
   obtain ⟨se, sf, st⟩ := addAt_spec p.st p.l1 c1 x i m I.rep.r1 I.b1
   simp only [pstep, DList.step, absPair, DList.addAt_ofList, LSeq.addAt, dataOf_length]
   by_cases hi : i < c1.length
@@ -167,9 +168,9 @@ theorem pstep_addAt (P : Params) (p : PS) (c1 c2 : List Cell) (x i : Nat) (m : M
     exact ⟨c1, c2, I, by simp [hi]⟩
 
 theorem pstep_removeAt (P : Params) (p : PS) (c1 c2 : List Cell) (i : Nat) (m : Mem) (I : Inv2 p c1 c2) :
-    ∃ c1' c2', Inv2 (pstep p (.removeAt i) m).2.1 c1' c2' ∧
+    ∃ c1' c2', Inv2 (pstep P p (.removeAt i) m).2.1 c1' c2' ∧
       DList.step P (absPair p c1 c2) (.removeAt i) m =
-        ((pstep p (.removeAt i) m).1, absPair (pstep p (.removeAt i) m).2.1 c1' c2', (pstep p (.removeAt i) m).2.2) := by
+        ((pstep P p (.removeAt i) m).1, absPair (pstep P p (.removeAt i) m).2.1 c1' c2', (pstep P p (.removeAt i) m).2.2) := by
   obtain ⟨se, st⟩ := removeAt_spec p.st p.l1 c1 i m I.rep.r1 I.b1
   simp only [pstep, DList.step, absPair, DList.removeAt_ofList, LSeq.removeAt, dataOf_length]
   by_cases hi : i < c1.length
@@ -191,9 +192,9 @@ theorem pstep_removeAt (P : Params) (p : PS) (c1 c2 : List Cell) (i : Nat) (m : 
     exact ⟨c1, c2, I, by simp [hi]⟩
 
 theorem pstep_removeFirst (P : Params) (p : PS) (c1 c2 : List Cell) (m : Mem) (I : Inv2 p c1 c2) :
-    ∃ c1' c2', Inv2 (pstep p .removeFirst m).2.1 c1' c2' ∧
+    ∃ c1' c2', Inv2 (pstep P p .removeFirst m).2.1 c1' c2' ∧
       DList.step P (absPair p c1 c2) .removeFirst m =
-        ((pstep p .removeFirst m).1, absPair (pstep p .removeFirst m).2.1 c1' c2', (pstep p .removeFirst m).2.2) := by
+        ((pstep P p .removeFirst m).1, absPair (pstep P p .removeFirst m).2.1 c1' c2', (pstep P p .removeFirst m).2.2) := by
   obtain ⟨se, st⟩ := removeFirst_spec p.st p.l1 c1 m I.rep.r1 I.b1
   simp only [pstep, DList.step, absPair, DList.removeFirst_ofList]
   cases hc : c1 with
@@ -208,9 +209,9 @@ theorem pstep_removeFirst (P : Params) (p : PS) (c1 c2 : List Cell) (m : Mem) (I
     simp only [dataOf_cons, LSeq.removeFirst, if_true, h1, h2, h3, k.triple]
 
 theorem pstep_removeLast (P : Params) (p : PS) (c1 c2 : List Cell) (m : Mem) (I : Inv2 p c1 c2) :
-    ∃ c1' c2', Inv2 (pstep p .removeLast m).2.1 c1' c2' ∧
+    ∃ c1' c2', Inv2 (pstep P p .removeLast m).2.1 c1' c2' ∧
       DList.step P (absPair p c1 c2) .removeLast m =
-        ((pstep p .removeLast m).1, absPair (pstep p .removeLast m).2.1 c1' c2', (pstep p .removeLast m).2.2) := by
+        ((pstep P p .removeLast m).1, absPair (pstep P p .removeLast m).2.1 c1' c2', (pstep P p .removeLast m).2.2) := by
   obtain ⟨se, st⟩ := removeLast_spec p.st p.l1 c1 m I.rep.r1 I.b1
   simp only [pstep, DList.step, absPair, DList.removeLast_ofList, LSeq.removeLast]
   rcases eq_nil_or_snoc c1 with hc | ⟨pre, a, hc⟩
@@ -225,9 +226,9 @@ theorem pstep_removeLast (P : Params) (p : PS) (c1 c2 : List Cell) (m : Mem) (I 
     simp
 
 theorem pstep_remove (P : Params) (p : PS) (c1 c2 : List Cell) (x : Nat) (m : Mem) (I : Inv2 p c1 c2) :
-    ∃ c1' c2', Inv2 (pstep p (.remove x) m).2.1 c1' c2' ∧
+    ∃ c1' c2', Inv2 (pstep P p (.remove x) m).2.1 c1' c2' ∧
       DList.step P (absPair p c1 c2) (.remove x) m =
-        ((pstep p (.remove x) m).1, absPair (pstep p (.remove x) m).2.1 c1' c2', (pstep p (.remove x) m).2.2) := by
+        ((pstep P p (.remove x) m).1, absPair (pstep P p (.remove x) m).2.1 c1' c2', (pstep P p (.remove x) m).2.2) := by
   obtain ⟨se, st⟩ := remove_spec p.st p.l1 c1 x m I.rep.r1 I.b1
   simp only [pstep, DList.step, absPair, DList.remove_ofList, LSeq.remove]
   by_cases hx : x ∈ dataOf c1
@@ -246,9 +247,9 @@ theorem pstep_remove (P : Params) (p : PS) (c1 c2 : List Cell) (x : Nat) (m : Me
     exact ⟨c1, c2, I, by simp [hx]⟩
 
 theorem pstep_removeAll (P : Params) (p : PS) (c1 c2 : List Cell) (m : Mem) (I : Inv2 p c1 c2) :
-    ∃ c1' c2', Inv2 (pstep p .removeAll m).2.1 c1' c2' ∧
+    ∃ c1' c2', Inv2 (pstep P p .removeAll m).2.1 c1' c2' ∧
       DList.step P (absPair p c1 c2) .removeAll m =
-        ((pstep p .removeAll m).1, absPair (pstep p .removeAll m).2.1 c1' c2', (pstep p .removeAll m).2.2) := by
+        ((pstep P p .removeAll m).1, absPair (pstep P p .removeAll m).2.1 c1' c2', (pstep P p .removeAll m).2.2) := by
   obtain ⟨se, st⟩ := removeAll_spec p.st p.l1 c1 m I.rep.r1 I.b1
   simp only [pstep, DList.step, absPair, DList.removeAll_ofList, LSeq.removeAll]
   by_cases hc : c1 = []
@@ -260,9 +261,9 @@ theorem pstep_removeAll (P : Params) (p : PS) (c1 c2 : List Cell) (m : Mem) (I :
     simp only [hne, if_false, h1, h2, h3, k.triple, dataOf_nil, dataOf_length]
 
 theorem pstep_replaceAt (P : Params) (p : PS) (c1 c2 : List Cell) (x i : Nat) (m : Mem) (I : Inv2 p c1 c2) :
-    ∃ c1' c2', Inv2 (pstep p (.replaceAt x i) m).2.1 c1' c2' ∧
+    ∃ c1' c2', Inv2 (pstep P p (.replaceAt x i) m).2.1 c1' c2' ∧
       DList.step P (absPair p c1 c2) (.replaceAt x i) m =
-        ((pstep p (.replaceAt x i) m).1, absPair (pstep p (.replaceAt x i) m).2.1 c1' c2', (pstep p (.replaceAt x i) m).2.2) := by
+        ((pstep P p (.replaceAt x i) m).1, absPair (pstep P p (.replaceAt x i) m).2.1 c1' c2', (pstep P p (.replaceAt x i) m).2.2) := by
   obtain ⟨se, st⟩ := replaceAt_spec p.st p.l1 c1 x i m I.rep.r1
   simp only [pstep, DList.step, absPair, DList.replaceAt_ofList, LSeq.replaceAt, dataOf_length]
   by_cases hi : i < c1.length
@@ -285,9 +286,9 @@ theorem pstep_replaceAt (P : Params) (p : PS) (c1 c2 : List Cell) (x i : Nat) (m
     exact ⟨c1, c2, I, by simp [hi]⟩
 
 theorem pstep_reverse (P : Params) (p : PS) (c1 c2 : List Cell) (m : Mem) (I : Inv2 p c1 c2) :
-    ∃ c1' c2', Inv2 (pstep p .reverse m).2.1 c1' c2' ∧
+    ∃ c1' c2', Inv2 (pstep P p .reverse m).2.1 c1' c2' ∧
       DList.step P (absPair p c1 c2) .reverse m =
-        ((pstep p .reverse m).1, absPair (pstep p .reverse m).2.1 c1' c2', (pstep p .reverse m).2.2) := by
+        ((pstep P p .reverse m).1, absPair (pstep P p .reverse m).2.1 c1' c2', (pstep P p .reverse m).2.2) := by
   obtain ⟨r', t, f, fr⟩ := reverse_spec p.st p.l1 c1 I.rep.r1
   simp only [pstep, DList.step, absPair, DList.reverse_ofList]
   refine ⟨c1.reverse, c2, ⟨⟨r', ?_, ?_⟩, ?_, ?_⟩, ?_⟩
@@ -303,9 +304,9 @@ theorem dataOf_drop (cs : List Cell) (i : Nat) : dataOf (cs.drop i) = (dataOf cs
 theorem dataOf_eq_nil (cs : List Cell) : dataOf cs = [] ↔ cs = [] := by simp [dataOf]
 
 theorem pstep_spliceAt (P : Params) (p : PS) (c1 c2 : List Cell) (i : Nat) (m : Mem) (I : Inv2 p c1 c2) :
-    ∃ c1' c2', Inv2 (pstep p (.spliceAt i) m).2.1 c1' c2' ∧
+    ∃ c1' c2', Inv2 (pstep P p (.spliceAt i) m).2.1 c1' c2' ∧
       DList.step P (absPair p c1 c2) (.spliceAt i) m =
-        ((pstep p (.spliceAt i) m).1, absPair (pstep p (.spliceAt i) m).2.1 c1' c2', (pstep p (.spliceAt i) m).2.2) := by
+        ((pstep P p (.spliceAt i) m).1, absPair (pstep P p (.spliceAt i) m).2.1 c1' c2', (pstep P p (.spliceAt i) m).2.2) := by
   obtain ⟨se, so, st⟩ := spliceAt_spec p.st p.l1 p.l2 c1 c2 i m I.rep
   simp only [pstep, DList.step, absPair, DList.spliceAt_ofList, LSeq.spliceAt, dataOf_length, dataOf_eq_nil, if_true]
   by_cases h2 : c2 = []
@@ -326,9 +327,9 @@ theorem pstep_spliceAt (P : Params) (p : PS) (c1 c2 : List Cell) (i : Nat) (m : 
       exact ⟨c1, c2, I, by simp [h2, hi]⟩
 
 theorem pstep_splice (P : Params) (p : PS) (c1 c2 : List Cell) (m : Mem) (I : Inv2 p c1 c2) :
-    ∃ c1' c2', Inv2 (pstep p .splice m).2.1 c1' c2' ∧
+    ∃ c1' c2', Inv2 (pstep P p .splice m).2.1 c1' c2' ∧
       DList.step P (absPair p c1 c2) .splice m =
-        ((pstep p .splice m).1, absPair (pstep p .splice m).2.1 c1' c2', (pstep p .splice m).2.2) := by
+        ((pstep P p .splice m).1, absPair (pstep P p .splice m).2.1 c1' c2', (pstep P p .splice m).2.2) := by
   obtain ⟨se, st⟩ := splice_spec p.st p.l1 p.l2 c1 c2 m I.rep
   simp only [pstep, DList.step, absPair, DList.splice_ofList, LSeq.splice, dataOf_eq_nil]
   by_cases h2 : c2 = []
@@ -345,9 +346,9 @@ theorem pstep_splice (P : Params) (p : PS) (c1 c2 : List Cell) (m : Mem) (I : In
     · simp only [h2, if_false, t1, t2, dataOf_append, dataOf_nil]
 
 theorem pstep_addAllAt (P : Params) (p : PS) (c1 c2 : List Cell) (i : Nat) (m : Mem) (I : Inv2 p c1 c2) :
-    ∃ c1' c2', Inv2 (pstep p (.addAllAt i) m).2.1 c1' c2' ∧
+    ∃ c1' c2', Inv2 (pstep P p (.addAllAt i) m).2.1 c1' c2' ∧
       DList.step P (absPair p c1 c2) (.addAllAt i) m =
-        ((pstep p (.addAllAt i) m).1, absPair (pstep p (.addAllAt i) m).2.1 c1' c2', (pstep p (.addAllAt i) m).2.2) := by
+        ((pstep P p (.addAllAt i) m).1, absPair (pstep P p (.addAllAt i) m).2.1 c1' c2', (pstep P p (.addAllAt i) m).2.2) := by
   obtain ⟨se, so, st⟩ := addAllAt_spec p.st p.l1 p.l2 c1 c2 i m I.rep I.b1 I.b2
   simp only [pstep, DList.step, absPair, DList.addAllAt_ofList, LSeq.addAllAt, dataOf_length, dataOf_eq_nil, if_true]
   by_cases h2 : c2 = []
@@ -388,11 +389,11 @@ theorem addAll_eq (s : St) (l1 l2 : Hdr) (m : Mem) : addAll s l1 l2 m = addAllAt
   · simp [h1]
 
 theorem pstep_addAll (P : Params) (p : PS) (c1 c2 : List Cell) (m : Mem) (I : Inv2 p c1 c2) :
-    ∃ c1' c2', Inv2 (pstep p .addAll m).2.1 c1' c2' ∧
+    ∃ c1' c2', Inv2 (pstep P p .addAll m).2.1 c1' c2' ∧
       DList.step P (absPair p c1 c2) .addAll m =
-        ((pstep p .addAll m).1, absPair (pstep p .addAll m).2.1 c1' c2', (pstep p .addAll m).2.2) := by
+        ((pstep P p .addAll m).1, absPair (pstep P p .addAll m).2.1 c1' c2', (pstep P p .addAll m).2.2) := by
   have h := pstep_addAllAt P p c1 c2 c1.length m I
-  have e1 : pstep p .addAll m = pstep p (.addAllAt c1.length) m := by
+  have e1 : pstep P p .addAll m = pstep P p (.addAllAt c1.length) m := by
     simp only [pstep, addAll_eq, I.rep.r1.size]
   have e2 : DList.step P (absPair p c1 c2) .addAll m = DList.step P (absPair p c1 c2) (.addAllAt c1.length) m := by
     simp only [DList.step, absPair, DList.addAll_ofList, DList.addAllAt_ofList, LSeq.addAll, LSeq.addAllAt, dataOf_length,
@@ -405,16 +406,42 @@ theorem pstep_addAll (P : Params) (p : PS) (c1 c2 : List Cell) (m : Mem) (I : In
       simp [h2, hd2, htk, hdr]
   rw [e1, e2]; exact h
 
+theorem dataOf_filter (pr : Nat → Bool) (cs : List Cell) : dataOf (cs.filter (fun c => pr c.2)) = (dataOf cs).filter pr := by
+  induction cs with
+  | nil => rfl
+  | cons c r ih => simp only [List.filter_cons, dataOf_cons]; split <;> simp [ih]
+
+theorem idsOf_filter_subset (pr : Nat → Bool) (cs : List Cell) (y : Nat) (hy : y ∈ idsOf (cs.filter (fun c => pr c.2))) : y ∈ idsOf cs := by
+  simp only [idsOf, List.mem_map] at hy ⊢
+  obtain ⟨c, hc, e⟩ := hy
+  exact ⟨c, (List.mem_filter.1 hc).1, e⟩
+
+theorem pstep_filterMut (P : Params) (p : PS) (c1 c2 : List Cell) (m : Mem) (I : Inv2 p c1 c2) :
+    ∃ c1' c2', Inv2 (pstep P p .filterMut m).2.1 c1' c2' ∧
+      DList.step P (absPair p c1 c2) .filterMut m =
+        ((pstep P p .filterMut m).1, absPair (pstep P p .filterMut m).2.1 c1' c2', (pstep P p .filterMut m).2.2) := by
+  obtain ⟨se, st⟩ := filterMut_spec P.pred p.st p.l1 c1 m I.rep.r1 I.b1
+  simp only [pstep, DList.step, absPair, DList.filterMut_ofList, LSeq.filterMut]
+  by_cases hc : c1 = []
+  · rw [se hc]; subst hc
+    exact ⟨[], c2, I, by simp [Mem.freeN]⟩
+  · obtain ⟨h1, h2, k⟩ := st hc
+    refine ⟨c1.filter (fun c => P.pred c.2), c2, Inv2.of_keeps I k (fun y hy => Or.inl (idsOf_filter_subset _ _ y hy)), ?_⟩
+    have hne : dataOf c1 ≠ [] := fun e => hc (List.eq_nil_of_length_eq_zero (by rw [← dataOf_length, e]; rfl))
+    have hl : ((dataOf c1).filter P.pred).length = (c1.filter (fun c => P.pred c.2)).length := by
+      rw [← dataOf_filter, dataOf_length]
+    simp only [hne, if_false, h1, h2, k.triple, dataOf_filter, dataOf_length, hl]
+
 theorem pstep_swapRoles (P : Params) (p : PS) (c1 c2 : List Cell) (m : Mem) (I : Inv2 p c1 c2) :
-    ∃ c1' c2', Inv2 (pstep p .swapRoles m).2.1 c1' c2' ∧
+    ∃ c1' c2', Inv2 (pstep P p .swapRoles m).2.1 c1' c2' ∧
       DList.step P (absPair p c1 c2) .swapRoles m =
-        ((pstep p .swapRoles m).1, absPair (pstep p .swapRoles m).2.1 c1' c2', (pstep p .swapRoles m).2.2) :=
+        ((pstep P p .swapRoles m).1, absPair (pstep P p .swapRoles m).2.1 c1' c2', (pstep P p .swapRoles m).2.2) :=
   ⟨c2, c1, ⟨⟨I.rep.r2, I.rep.r1, fun x hx hx1 => I.rep.disj x hx1 hx⟩, I.b2, I.b1⟩, rfl⟩
 
 /-- **one pointer-level step refines the sequence-level step** and keeps the pair well-formed -/
 theorem pstep_refines (P : Params) (p : PS) (c1 c2 : List Cell) (op : POp) (m : Mem) (I : Inv2 p c1 c2) :
-    ∃ c1' c2', Inv2 (pstep p op m).2.1 c1' c2' ∧
-      DList.step P (absPair p c1 c2) op.toOp m = ((pstep p op m).1, absPair (pstep p op m).2.1 c1' c2', (pstep p op m).2.2) := by
+    ∃ c1' c2', Inv2 (pstep P p op m).2.1 c1' c2' ∧
+      DList.step P (absPair p c1 c2) op.toOp m = ((pstep P p op m).1, absPair (pstep P p op m).2.1 c1' c2', (pstep P p op m).2.2) := by
   cases op with
   | addFirst x => exact pstep_addFirst P p c1 c2 x m I
   | addLast x => exact pstep_addLast P p c1 c2 x m I
@@ -430,17 +457,18 @@ theorem pstep_refines (P : Params) (p : PS) (c1 c2 : List Cell) (op : POp) (m : 
   | removeAll => exact pstep_removeAll P p c1 c2 m I
   | replaceAt x i => exact pstep_replaceAt P p c1 c2 x i m I
   | reverse => exact pstep_reverse P p c1 c2 m I
+  | filterMut => exact pstep_filterMut P p c1 c2 m I
   | swapRoles => exact pstep_swapRoles P p c1 c2 m I
 
 /-- **whole histories**: the pointer-level run produces the outputs and the ledger of the sequence-level run on the
 canonical chains, and ends in a pair that is again represented (hence well-formed, both lists) -/
 theorem prun_refines (P : Params) : ∀ (ops : List POp) (p : PS) (c1 c2 : List Cell) (m : Mem), Inv2 p c1 c2 →
-    ∃ c1' c2', Inv2 (prun p ops m).2.1 c1' c2' ∧
-      DList.run P (absPair p c1 c2) (ops.map POp.toOp) m = ((prun p ops m).1, absPair (prun p ops m).2.1 c1' c2', (prun p ops m).2.2)
+    ∃ c1' c2', Inv2 (prun P p ops m).2.1 c1' c2' ∧
+      DList.run P (absPair p c1 c2) (ops.map POp.toOp) m = ((prun P p ops m).1, absPair (prun P p ops m).2.1 c1' c2', (prun P p ops m).2.2)
   | [], p, c1, c2, m, I => ⟨c1, c2, I, rfl⟩
   | op :: ops, p, c1, c2, m, I => by
     obtain ⟨d1, d2, I', e⟩ := pstep_refines P p c1 c2 op m I
-    obtain ⟨f1, f2, I'', e'⟩ := prun_refines P ops (pstep p op m).2.1 d1 d2 (pstep p op m).2.2 I'
+    obtain ⟨f1, f2, I'', e'⟩ := prun_refines P ops (pstep P p op m).2.1 d1 d2 (pstep P p op m).2.2 I'
     refine ⟨f1, f2, I'', ?_⟩
     simp only [List.map_cons, DList.run, prun, e, e']
 
